@@ -259,6 +259,47 @@ func TestC05Keeper(t *testing.T) {
 		q.endBlock()
 	}
 
+	// ---- corpus (seed s118): a resting buy with a TIGHT remainder takes two fills on different sell ticks in a price-increasing batch
+	{
+		q := e.begin(tr)
+		q.place(1, true, dec("0.4998"), sdkmath.NewInt(1000), 0)
+		q.place(2, false, dec("0.4998"), sdkmath.NewInt(1000), 0)
+		q.endBlock() // last price 0.4998
+		q.place(3, true, dec("0.5"), sdkmath.NewInt(10000), hour) // offer 5000
+		q.place(4, false, dec("0.4998"), sdkmath.NewInt(1001), 0)
+		q.endBlock() // filled 1001 @ 0.4998: paid 501, 4499 left for 8999 open
+		q.place(5, false, dec("0.4999"), sdkmath.NewInt(201), 0)
+		q.place(2, false, dec("0.5"), sdkmath.NewInt(9000), 0)
+		q.endBlock() // 201 @ 0.4999 (101) then at most 8796 @ 0.5 (4398): 4499 in all
+		q.endBlock()
+	}
+	// directed: carried-over buy whose remaining offer coin is (almost) exactly what its open amount costs, then two sell ticks
+	for s := 0; s < scale(150, 3000); s++ {
+		q := e.begin(tr)
+		lo := amm.TickToIndex(dec("0.001"), e.prec)
+		hi := amm.TickToIndex(dec("1000"), e.prec)
+		c := lo + rng.Intn(hi-lo+1)
+		gapLo := 1 + rng.Intn(3)
+		P, p1, p0 := amm.TickFromIndex(c, e.prec), amm.TickFromIndex(c-1, e.prec), amm.TickFromIndex(c-1-gapLo, e.prec)
+		unit := c05UnitAmount(P)
+		mul := func(k int) sdkmath.Int { return unit.MulRaw(int64(k)).AddRaw(int64(rng.Intn(3))) }
+		q.place(1, true, p0, mul(1000), 0)
+		q.place(2, false, p0, mul(1000), 0)
+		q.endBlock() // last price p0
+		B := mul(5000 + rng.Intn(20000))
+		q.place(3, true, P, B, hour)
+		q.place(4, false, p0, mul(110+rng.Intn(3000)), 0)
+		q.endBlock() // partially filled below its limit: the saving is less than a few quote units
+		q.place(5, false, p1, mul(101+rng.Intn(200)), 0)
+		if rng.Chance(50) {
+			q.place(1, false, p1, mul(101+rng.Intn(200)), 0)
+		}
+		q.place(2, false, P, B, 0)
+		q.endBlock() // price-increasing batch: the buy is filled on the p1 tick and on the P tick
+		q.endBlock()
+		tr.Count("k.directed:tight-remainder-two-ticks")
+	}
+
 	seqs := scale(2000, 20000)
 	for s := 0; s < seqs; s++ {
 		q := e.begin(tr)
